@@ -5,7 +5,7 @@ From Mos Require Import Gen.PassLoop model.PassLoop spec.PassLoopSpec.
 (* the rules as the current source has them (re-translated on every run) *)
 Lemma rules_present :
   rule_same_errors = true /\ rule_clean_pass = true /\ clean_needs_no_new_symbols = true /\
-  rule_same_undefined = true /\ same_undefined_needs_nonempty = true.
+  rule_same_undefined = true /\ same_undefined_needs_nonempty = true /\ clean_needs_no_changed_symbols = true.
 Proof. repeat split; reflexivity. Qed.
 
 Section Proofs.
@@ -55,10 +55,10 @@ Section Proofs.
   Lemma step_spec k :
     step (spec_state k) = if stops_at k then Stop (exit_of k) else Next (spec_state (S k)).
   Proof.
-    destruct rules_present as (R1 & R2 & R3 & R4 & R5).
+    destruct rules_present as (R1 & R2 & R3 & R4 & R5 & R6).
     unfold PassLoop.step, spec_state, stops_at, exit_of, clean_pass, same_errors_twice, same_undefined_twice,
       has_segments, undefined_of, errors_of, added, ctx_after. cbn [l_ctx l_prev_undefined l_prev_errors].
-    rewrite R1, R2, R3, R4, R5. cbn [andb orb negb].
+    rewrite R1, R2, R3, R4, R5, R6. cbn [andb orb negb].
     cbn [PassLoopSpec.ctx_before PassLoopSpec.previous_undefined PassLoopSpec.previous_errors].
     unfold PassLoopSpec.has_segments, PassLoopSpec.errors_of, PassLoopSpec.undefined_of, PassLoopSpec.ctx_after.
     destruct (pass (ctx_before k)) as [[c1 errs] add] eqn:P. cbn [fst snd].
@@ -210,7 +210,7 @@ Proof.
   induction fuel as [|f IH]; intros idx c pu pe Hne.
   - cbn. f_equal. lia.
   - unfold p2_run in *. cbn [run]. unfold step. cbn [l_ctx l_prev_undefined l_prev_errors p2_pass].
-    destruct rules_present as (R1 & R2 & R3 & R4 & R5). rewrite R1. cbn [andb negb].
+    destruct rules_present as (R1 & R2 & R3 & R4 & R5 & R6). rewrite R1. cbn [andb negb].
     assert (Q : (match pe with [y] => Bool.eqb c y | _ => false end) = false).
     { destruct pe as [|y [|z r]]; try reflexivity. destruct (Bool.eqb c y) eqn:B; [|reflexivity].
       apply Bool.eqb_prop in B. subst. congruence. }
